@@ -461,7 +461,7 @@ def RxParamOutcome (st : St) (p : List Nat) (ans : Nat) (st' : St) : Prop :=
     (ans ≠ 7 → st'.1 = st.1) ∧
     (frequencyValid st.2.1.id f = false → ans % 2 = 0) ∧
     ((dl % 16 ≠ 15 ∧ getDatarate st.2.1.id (dl % 16) = none) → ans / 2 % 2 = 0) ∧
-    (maxRx1DrOffset st.2.1.id < (dl / 16) % 8 → ans / 4 = 0)
+    (maxRx1DrOffset st.2.1.id < (dl / 16) % 8 → ans / 4 = 0) ∧ ans ≤ 7
 
 /-- RXTimingSetupReq: always accepted, the delay is the commanded one -/
 def RxTimingOutcome (st : St) (p : List Nat) (st' : St) : Prop :=
@@ -499,7 +499,7 @@ def LinkAdrOutcome (st : St) (ps : List (List Nat)) (last : List Nat) (ans : Nat
     st'.2.2 = channelMaskGet st'.2.1 ∧
     (rfu = true → ans % 2 = 0) ∧
     ((b0 / 16 ≠ 15 ∧ isUplinkDatarate st.2.1.id (b0 / 16) = false) → ans / 2 % 2 = 0) ∧
-    ((b0 % 16 ≠ 15 ∧ txPowerAdjust st.2.1.id (b0 % 16) = .ok none) → ans / 4 = 0)
+    ((b0 % 16 ≠ 15 ∧ txPowerAdjust st.2.1.id (b0 % 16) = .ok none) → ans / 4 = 0) ∧ ans ≤ 7
 
 /-- **the answers to a downlink's command stream, and what the stream did**: one answer per handled
 request, in request order; a LinkADRReq block is answered with identical copies (one per command);
@@ -655,7 +655,11 @@ theorem handleCmds_sem_aux (snr : Int) (n : Nat) : ∀ (cmds : List Cmd), cmds.l
           obtain ⟨hrj1, hrj2, hrj3⟩ := linkAdr_rejects c.cfg c.region mk rfu (b0 / 16) (b0 % 16) ans cfg1 region1 hdec
           have hcfg1 : c1.cfg = cfg1 ∧ c1.region = region1 := by rw [← hc1]; exact pushAll_cfg _ _
           have hout : LinkAdrOutcome (stOf c mask) (ps ++ [pl]) pl ans (stOf c1 (channelMaskGet c1.region)) := by
-            refine ⟨mk, rfu, b0, hbm, hb0, ?_, ?_, rfl, hrj1, hrj2, hrj3⟩
+            have hle : ans ≤ 7 := by
+              obtain ⟨pw', cm', _, _, hres⟩ := linkAdr_decide_eq _ _ _ _ _ _ _ hdec
+              cases cm' <;> cases hd' : linkAdrDr c.cfg c.region.id (b0 / 16) <;> cases pw' <;> simp only [hd'] at hres <;>
+                simp only [Prod.mk.injEq] at hres <;> obtain ⟨rfl, _, _⟩ := hres <;> simp
+            refine ⟨mk, rfu, b0, hbm, hb0, ?_, ?_, rfl, hrj1, hrj2, hrj3, hle⟩
             · intro h7
               obtain ⟨d, pw, hd, hpw, e1, e2⟩ := hatom7 h7
               exact ⟨d, pw, hd, hpw, by simp only [stOf]; rw [hcfg1.1, e1], by simp only [stOf]; rw [hcfg1.2, e2]⟩
@@ -683,7 +687,9 @@ theorem handleCmds_sem_aux (snr : Int) (n : Nat) : ∀ (cmds : List Cmd), cmds.l
           · refine .rxParam p rest _ _ (stOf ({ c with cfg := (rxParamSetup c.cfg c.region.id dl f).2 }.push 5 [(rxParamSetup c.cfg c.region.id dl f).1]) mask) as _ ?_ ha
             have hpc := push_cfg { c with cfg := (rxParamSetup c.cfg c.region.id dl f).2 } 5 [(rxParamSetup c.cfg c.region.id dl f).1]
             obtain ⟨r1, r2, r3⟩ := rxParamSetup_rejects c.cfg c.region.id dl f
-            refine ⟨dl, f, hdl, hf24, ?_, ?_, ?_, r1, r2, r3⟩
+            have hle : (rxParamSetup c.cfg c.region.id dl f).1 ≤ 7 := by
+              unfold rxParamSetup; simp only []; (repeat' split) <;> omega
+            refine ⟨dl, f, hdl, hf24, ?_, ?_, ?_, r1, r2, r3, hle⟩
             · simp only [stOf]; rw [hpc.2]
             · intro h7; simp only [stOf]; rw [hpc.1]; exact rxParamSetup_ack c.cfg c.region.id dl f h7
             · intro h7; simp only [stOf]; rw [hpc.1]; exact rxParamSetup_nak c.cfg c.region.id dl f h7
